@@ -15,6 +15,9 @@
 
 #define CC_H
 #include <pthread.h>
+#ifdef VERIF_CBMC
+#include "event.h"       /* the cut copy (union ev as a struct), before anything includes the real one */
+#endif
 #include "src/bcd.h"
 #include "src/format.h"
 #ifndef VBI_DECODER
@@ -25,14 +28,17 @@ struct caption { int carved_out; };
 
 #ifdef VERIF_CBMC
 /* THE CUT (vlib/props/_asm.py ASM_CUT; scratch copies regenerated from the current source on every run, first on the include path):
-   raw_page[8] as eight pointers to harness-owned raw pages; the Level One family of the page union as one struct.  Included first so that the
-   include guards win over /repo/src. */
+   (1) raw_page[8] as eight pointers to harness-owned raw pages; (2) the Level One family of the page union as one struct; (3) union `ev` of vbi_event as a
+   struct (event.h, included above); (4) cache_network_page_stat() hands out harness-owned statistics entries (asm_page_stat below).  Measured effect on
+   h_asm_term: decoder as one 52 KB object + byte-loop libc models: > 150 s symex for the first 100 byte stores (every access rewrites / expands all
+   scalars of the object); with the cut 15-27 s and 0.5 GB per instance.  Included first so that the include guards win over /repo/src. */
 #include "cache-priv.h"
 #include "teletext_decoder.h"
 #include "src/packet.c"
 #define RPG(i) (VBI.vt.raw_page[(i) & 7])
 #define LOPD(cp) ((cp)->data.ext_lop.lop)
 #define ENHD(cp) ((cp)->data.ext_lop.enh)
+#define LOPX(cp) ((cp)->data.ext_lop.ext)
 #else
 /* the native replay build runs the UNCUT real unit (real union, real raw_page[8] array): a counterexample that is an artefact of the cut does not
    reproduce and is reported as unconfirmed.  The path through a directory that does not exist in the scratch include directory makes the
@@ -41,6 +47,7 @@ struct caption { int carved_out; };
 #define RPG(i) (&VBI.vt.raw_page[(i) & 7])
 #define LOPD(cp) ((cp)->data.lop)
 #define ENHD(cp) ((cp)->data.enh_lop.enh)
+#define LOPX(cp) ((cp)->data.ext_lop.ext)
 #endif
 
 #ifdef VERIF_CBMC
@@ -110,6 +117,18 @@ void *memmove(void *dst, const void *src, size_t n)
 #ifndef AROLL
 #define AROLL 0        /* 0: P, Q and the headers carry C7 suppress header (store_lop's channel switch heuristic not entered) */
 #endif
+#ifndef AFLX
+#define AFLX 0          /* further control bits of the pages in progress (C5, C6, C8..C10, C12..C14 as in cache_page.flags) */
+#endif
+#ifndef ACTLX
+#define ACTLX 0         /* further control bits C8..C10, C12..C14 of the headers (control byte, C7 = 1 ... C14 = 0x80) */
+#endif
+#ifndef ASUB2
+#define ASUB2 0x0001    /* sub-code S1..S4 of H and of H3 */
+#endif
+#ifndef ASUB3
+#define ASUB3 0x0002
+#endif
 #ifndef AGOT
 #define AGOT 1         /* the row packet X/ARA of P arrives before H (1) or not (0) */
 #endif
@@ -153,6 +172,22 @@ vbi_bool vbi_decode_teletext_8302_pdc(vbi_program_id *pid, const uint8_t b[42]) 
 vbi_bool vbi_decode_vps_cni(unsigned int *cni, const uint8_t b[13]) { (void) cni; (void) b; return FALSE; }
 vbi_bool vbi_decode_vps_pdc(vbi_program_id *pid, const uint8_t b[13]) { (void) pid; (void) b; return FALSE; }
 size_t _vbi_strlcpy(char *dst, const char *src, size_t size) { size_t i = 0; if (size) { for (; i + 1 < size && src[i]; i++) dst[i] = src[i]; dst[i] = 0; } return i; }
+
+#ifdef VERIF_CBMC
+/* cut (4): page statistics entries as separate small objects, selected by the (concrete) page number */
+static struct ttx_page_stat PS_0, PS_1, PS_2, PS_3, PS_X; static unsigned ps_other;
+#define PSN(m, p) (((m) & 7 ? (m) & 7 : 8) * 256 + (p))
+struct ttx_page_stat *asm_page_stat(cache_network *cn, vbi_pgno pgno)
+{ (void) cn;
+  if (pgno == PSN(AM1, AP1)) return &PS_0;
+  if (pgno == PSN(AM2, AP2)) return &PS_1;
+  if (pgno == PSN(AM2, AQP)) return &PS_2;
+  if (pgno == PSN(AM1, AP3)) return &PS_3;
+  ps_other++; return &PS_X; }
+#define PS_OTHER_ACCESSES ps_other
+#else
+#define PS_OTHER_ACCESSES 0u
+#endif
 
 static vbi_decoder VBI;            /* static zero object (R12); the fields that matter are set below */
 static cache_network CN;
@@ -223,15 +258,20 @@ V_HARNESS(h_asm_term)
   in_bytes(rowpkt + 2, 40); in_bytes(h2 + 10, 32); in_bytes(h3 + 10, 32); in_bytes(rowB0, 40); in_bytes(hdrP, 40);
   subP = in_u16() & 0x3F7F; flP = in_u32(); subQ = in_u16() & 0x3F7F; flQ = in_u32();
   sub2 = in_u16(); ctl2 = in_u8(); sub3 = in_u16(); ctl3 = in_u8(); (void) in_bool(); got_rowA = AGOT;   /* grid: symbolic, lop_parity_check walks all 25 rows (0.1 s of symex per byte read) */
-  /* grid constants: serial/parallel (C11) and erase (C4) everywhere; C7 unless AROLL */
-  flP = (flP & 0xEFC000u) | subP | (ASER ? C11_MAGAZINE_SERIAL : 0) | (AERA1 ? C4_ERASE_PAGE : 0) | (AROLL ? 0 : C7_SUPPRESS_HEADER);
-  flQ = (flQ & 0xEFC000u) | subQ | (ASER ? C11_MAGAZINE_SERIAL : 0) | (AQ == 1 ? C4_ERASE_PAGE : 0) | (AROLL ? 0 : C7_SUPPRESS_HEADER);
-  sub2 = (sub2 & ~SUB_C4) | (AERA2 ? SUB_C4 : 0); ctl2 = (ctl2 & ~CTL_C11) | (ASER ? CTL_C11 : 0) | (AROLL ? 0 : CTL_C7);
-  ctl3 = (ctl3 & ~CTL_C11) | (ASER ? CTL_C11 : 0) | (AROLL ? 0 : CTL_C7);
+  /* Control bits are grid constants everywhere (serial/parallel C11, erase C4, suppress header C7 unless AROLL, the rest from AFLX / ACTLX): they decide
+     WHICH raw page the decoder terminates and whether store_lop enters its channel switch heuristic; a flag word with symbolic bits does not fold
+     (`flags & C4` stays symbolic: both arms, same_header() with symbolic pointer offsets: 5 M variables / 86 M clauses).  Likewise the sub-code and
+     control bytes of the headers (ASUB2/ASUB3: S1..S4; the decoder's `flags` of the page a header opens is computed from them).  Symbolic: the
+     sub-page numbers of the pages in progress, all row payloads, the 32 display bytes of every header. */
+  (void) flP; (void) flQ; (void) sub2; (void) ctl2; (void) sub3; (void) ctl3;
+  flP = (unsigned) (AFLX) | (ASER ? C11_MAGAZINE_SERIAL : 0) | (AERA1 ? C4_ERASE_PAGE : 0) | (AROLL ? 0 : C7_SUPPRESS_HEADER);
+  flQ = (unsigned) (AFLX) | (ASER ? C11_MAGAZINE_SERIAL : 0) | (AQ == 1 ? C4_ERASE_PAGE : 0) | (AROLL ? 0 : C7_SUPPRESS_HEADER);
+  sub2 = ((unsigned) (ASUB2) & 0x3F7Fu) | (AERA2 ? SUB_C4 : 0); ctl2 = (unsigned) (ACTLX) | (ASER ? CTL_C11 : 0) | (AROLL ? 0 : CTL_C7);
+  sub3 = ((unsigned) (ASUB3) & 0x3F7Fu) | SUB_C4; ctl3 = ctl2;
   mk_addr(rowpkt, AM1, ARA); mk_header(h2, AM2, AP2, sub2, ctl2); mk_header(h3, AM1, AP3, sub3, ctl3);
 
   asm_state_init(); r1 = RPG(AM1); r2 = RPG(AM2);
-  open_lop(r1, pgP, subP, flP);
+  open_lop(r1, pgP, subP, flP);     /* flags: control bits only (the S-bits the decoder also keeps there are never read) */
   memcpy(LOPD(r1->page).raw[0], hdrP, 40); memcpy(LOPD(r1->page).raw[ARB], rowB0, 40);
   VBI.vt.current = r1;
 #if AQ
@@ -301,7 +341,10 @@ V_HARNESS(h_asm_term)
   (void) vbi_decode_teletext(&VBI, h3);
   V_ASSERT(put_n <= NREC && ev_n <= NREC, "record_room");
   V_ASSERT(chsw_n == 0, "no_channel_switch_assumed");
-#if (AM2 != AM1) || !AERA1 || (AP2 != AP1)
+#if defined(KNOWN_serial_open_page_dropped) && ASER && AERA1 && AHIT2 && !AERA2 && (AM2 != AM1)
+  /* known finding: P (with C4) is not completed by H; H3 completes H's page (serial, no C4) instead and P's buffer is reused: P is never stored */
+  V_ASSERT(n_puts(pgP) <= 1 && n_evs(pgP) == n_puts(pgP), "page_stored_at_most_once");
+#elif (AM2 != AM1) || !AERA1 || (AP2 != AP1)
 #if (AM2 == AM1) && (AP2 == AP1)
   V_ASSERT(n_puts(pgP) == 1 && n_evs(pgP) == 1, "page_stored_exactly_once_by_next_header_of_its_magazine");
 #else
@@ -320,7 +363,224 @@ V_HARNESS(h_asm_term)
 #endif
   V_ASSERT(VBI.vt.current == r1 && r1->page->pgno == pg3, "header_opens_its_page_in_its_magazine");
 #endif
+  V_ASSERT(PS_OTHER_ACCESSES == 0, "cut_page_statistics_only_of_the_pages_involved");
   (void) k; (void) pgQ; (void) pg3; (void) flQ; (void) subQ; (void) h3;
+  V_END();
+}
+#endif
+
+/* =============== (b) C03: an uncorrectable page number abandons EVERY page in progress, stores nothing =============== */
+#ifdef H_PGERR
+#ifndef AMH
+#define AMH AM2         /* magazine of the damaged header */
+#endif
+#ifndef ABADBYTE
+#define ABADBYTE 0
+#endif
+#ifndef ABADMASK
+#define ABADMASK 0x41
+#endif
+#ifndef ABADDIGIT
+#define ABADDIGIT 3
+#endif
+#ifndef ABADOTHER
+#define ABADOTHER 5
+#endif
+V_HARNESS(h_asm_pageno_error)
+{
+  struct raw_page *r1, *r2; uint8_t hb[42], rowpkt[42], h3[42]; unsigned subP, subQ, flP, flQ, i; vbi_bool r; uint8_t rowQ0[40];
+  const int pgP = AM1 * 256 + AP1, pgQ = AM2 * 256 + AQP;
+  V_INIT();
+  in_bytes(hb + 2, 40); in_bytes(rowpkt + 2, 40); in_bytes(h3 + 10, 32); in_bytes(rowQ0, 40);
+  subP = in_u16() & 0x3F7F; subQ = in_u16() & 0x3F7F;
+  flP = (unsigned) (AFLX) | (ASER ? C11_MAGAZINE_SERIAL : 0) | (AERA1 ? C4_ERASE_PAGE : 0) | (AROLL ? 0 : C7_SUPPRESS_HEADER);
+  flQ = (unsigned) (AFLX) | (ASER ? C11_MAGAZINE_SERIAL : 0) | (AQ == 1 ? C4_ERASE_PAGE : 0) | (AROLL ? 0 : C7_SUPPRESS_HEADER);
+  mk_addr(hb, AMH, 0);
+  /* page number uncorrectable: the byte ABADBYTE (0 units, 1 tens) is the code word of a digit with the two bits ABADMASK flipped - grid constants (with a
+     symbolic byte the decoder's "correctable" continuation is explored with a symbolic page number: every page function, every statistics entry:
+     5 GB, no verdict in 300 s); sub-code, control bytes and text arbitrary */
+  hb[2 + (ABADBYTE)] = (uint8_t) (ref_ham8(ABADDIGIT) ^ (ABADMASK));
+  hb[3 - (ABADBYTE)] = (uint8_t) ref_ham8(ABADOTHER);     /* the other digit: a clean code word (symbolic, `units | tens << 4` does not fold to "negative") */
+  V_ASSERT(ref_unham8(hb[2 + (ABADBYTE)]) < 0, "grid_byte_is_uncorrectable");
+  mk_addr(rowpkt, AM2, ARA);
+  mk_header(h3, AM2, AP2, ((unsigned) (ASUB3) & 0x3F7Fu) | SUB_C4, (unsigned) (ACTLX) | (ASER ? CTL_C11 : 0) | (AROLL ? 0 : CTL_C7));
+  asm_state_init(); r1 = RPG(AM1); r2 = RPG(AM2);
+  /* two pages in progress: P in magazine AM1 (opened by the most recent header: vt.current), Q in magazine AM2, both with a row received */
+  open_lop(r1, pgP, subP, flP); r1->lop_packets = 1u << ARA; VBI.vt.current = r1;
+  open_lop(r2, pgQ, subQ, flQ); r2->lop_packets = 1u << ARB; memcpy(LOPD(r2->page).raw[ARA], rowQ0, 40);
+  r = vbi_decode_teletext(&VBI, hb);
+  V_ASSERT(!r, "pageno_error_rejected");
+  V_ASSERT(put_n == 0 && ev_n == 0 && chsw_n == 0, "pageno_error_stores_nothing");
+  V_ASSERT(r1->page->function == PAGE_FUNCTION_DISCARD, "pageno_error_abandons_current_page");
+  V_ASSERT(r2->page->function == PAGE_FUNCTION_DISCARD, "pageno_error_abandons_pages_in_progress_of_every_magazine");
+  for (i = 0; i < 8; i++) V_ASSERT(RPG(i)->page->function == PAGE_FUNCTION_DISCARD, "pageno_error_abandons_pages_in_progress_of_every_magazine");
+  /* the rows that follow belong to an unknown page: they are not collected, and the next good header of that magazine stores nothing */
+  (void) vbi_decode_teletext(&VBI, rowpkt);
+  get_result = NULL;
+  (void) vbi_decode_teletext(&VBI, h3);
+  V_ASSERT(put_n == 0 && ev_n == 0, "abandoned_page_never_stored");
+  V_ASSERT(VBI.vt.current == r2 && r2->page->pgno == AM2 * 256 + AP2, "header_opens_its_page_in_its_magazine");
+  V_ASSERT(PS_OTHER_ACCESSES == 0, "cut_page_statistics_only_of_the_pages_involved");
+  V_END();
+}
+#endif
+
+#if defined(H_X26) || defined(H_X28)
+/* independent decoder of the Hamming 24/18 code (EN 300 706 8.3): position p (1..24) of the word is bit p-1; five parity tests over the positions whose
+   number has bit j set (odd parity each), overall odd parity over all 24.  All tests hold: no error.  Overall test fails: one error, at the position
+   the failed tests spell (0: the overall bit itself; > 24: impossible, three or more errors).  Overall holds, some test fails: double error.
+   Returns the 18 data bits or -1. */
+static int ref_unham24(const uint8_t *p)
+{
+  unsigned w = p[0] | ((unsigned) p[1] << 8) | ((unsigned) p[2] << 16), syn = 0, j, all;
+  static const unsigned mask[5] = { 0x555555u, 0x666666u, 0x787878u, 0x007F80u, 0x7F8000u };
+  static const unsigned pbit[5] = { 0, 1, 3, 7, 15 };
+  for (j = 0; j < 5; j++) if (!ref_par32(w & (mask[j] | (1u << pbit[j])))) syn |= 1u << j;
+  all = ref_par32(w & 0xFFFFFFu);
+  if (!all) { if (syn > 24) return -1; if (syn) w ^= 1u << (syn - 1); }
+  else if (syn) return -1;
+  return (int) (((w >> 2) & 1u) | (((w >> 4) & 7u) << 1) | (((w >> 8) & 0x7Fu) << 4) | (((w >> 16) & 0x7Fu) << 11));
+}
+#endif
+
+/* =============== (c) C03: X/26 - no triplet behind an uncorrectable one is applied =============== */
+#ifdef H_X26
+#ifndef ADES
+#define ADES 0          /* designation code of the X/26 packet; ADES earlier packets were received completely */
+#endif
+V_HARNESS(h_asm_x26)
+{
+  struct raw_page *r1; uint8_t pk[42], pk2[42]; unsigned subP, flP, i, first_bad = 13; int t[13]; vbi_bool r, r2; struct ttx_triplet e0[39], e1[39];
+  const int pgP = AM1 * 256 + AP1; const unsigned base = ADES * 13u;
+  V_INIT();
+  in_bytes(pk + 3, 39); in_bytes(pk2 + 3, 39); subP = in_u16() & 0x3F7F;
+  flP = (unsigned) (AFLX) | (ASER ? C11_MAGAZINE_SERIAL : 0) | (AERA1 ? C4_ERASE_PAGE : 0) | (AROLL ? 0 : C7_SUPPRESS_HEADER);
+  mk_addr(pk, AM1, 26); pk[2] = (uint8_t) ref_ham8(ADES); mk_addr(pk2, AM1, 26); pk2[2] = (uint8_t) ref_ham8(ADES + 1);
+  asm_state_init(); r1 = RPG(AM1);
+  open_lop(r1, pgP, subP, flP); VBI.vt.current = r1;
+  /* as the header path leaves the enhancement: every slot 0xFF (address > 63 terminates: lop_parity_check, the formatter); ADES packets already taken */
+  for (i = 0; i < 39; i++) { ENHD(r1->page)[base + i].address = 0xFF; ENHD(r1->page)[base + i].mode = 0xFF; ENHD(r1->page)[base + i].data = 0xFF; }   /* the three packets' worth from here on */
+  r1->num_triplets = (int) base; r1->page->x26_designations = (1u << ADES) - 1u;
+  for (i = 0; i < 39; i++) e0[i] = ENHD(r1->page)[base + i];
+  /* which triplets are correctable, and to what, is taken from vbi_unham24p itself (decided against the standard by C03 ham24 / ham24_err1 / ham24_err2):
+     with an independent decoder here the solver has to prove the equivalence of the two decoders for 13 triplets at once (no verdict in 200 s);
+     this obligation is about what the dispatcher does with the verdicts */
+  for (i = 0; i < 13; i++) t[i] = vbi_unham24p(pk + 3 + 3 * i);
+  for (i = 13; i > 0; i--) if (t[i - 1] < 0) first_bad = i - 1;
+#ifdef AKBAD      /* the place of the first uncorrectable triplet as a grid constant (symbolic otherwise) */
+  V_ASSUME(first_bad == (AKBAD));
+#endif
+  r = vbi_decode_teletext(&VBI, pk);
+  for (i = 0; i < 39; i++) e1[i] = ENHD(r1->page)[base + i];
+  V_ASSERT(r, "x26_packet_accepted");
+  for (i = 0; i < 13; i++) {
+    if (i < first_bad) V_ASSERT(e1[i].address == (t[i] & 0x3F) && e1[i].mode == ((t[i] >> 6) & 0x1F) && e1[i].data == (t[i] >> 11), "x26_triplets_before_the_error_stored_in_place");
+    else V_ASSERT(e1[i].address == 0xFF && e1[i].mode == 0xFF && e1[i].data == 0xFF, "x26_no_triplet_behind_an_uncorrectable_one_is_stored");
+  }
+  for (i = 13; i < 39; i++) V_ASSERT(e1[i].address == e0[i].address && e1[i].mode == e0[i].mode && e1[i].data == e0[i].data, "x26_packet_writes_only_its_13_slots");
+  V_ASSERT(r1->num_triplets == (int) (base + first_bad), "x26_triplet_count_stops_at_the_error");
+  if (first_bad < 13) V_REACH("bad_triplet"); else V_REACH("all_good");
+  /* the next X/26 packet of the page: after an error it is out of sequence and stores nothing (the 0xFF slot left at the error ends the enhancement) */
+  r2 = vbi_decode_teletext(&VBI, pk2);
+  if (first_bad < 13) {
+    V_ASSERT(!r2 && r1->num_triplets == -1, "x26_packets_behind_an_error_rejected");
+    for (i = 0; i < 39; i++) V_ASSERT(ENHD(r1->page)[base + i].address == e1[i].address && ENHD(r1->page)[base + i].mode == e1[i].mode && ENHD(r1->page)[base + i].data == e1[i].data, "x26_packets_behind_an_error_store_nothing");
+  } else V_ASSERT(r2, "x26_next_packet_in_sequence_accepted");
+  V_ASSERT(put_n == 0 && ev_n == 0, "x26_stores_no_page");
+  V_ASSERT(r1->page->function == PAGE_FUNCTION_LOP && r1->page->pgno == pgP && r1->page->subno == (int) subP, "x26_page_in_progress_kept");
+  V_END();
+}
+#endif
+
+/* =============== (d) C01: x28_designations records exactly the designations whose extension was taken =============== */
+/* cache_page_size() gives a cached Level One page the room for data.ext_lop.ext only if x28_designations & 0x13 (X/28/0, /1, /4), while page_language()
+   reads ext_lop.ext for ANY non-zero x28_designations: a bit outside 0x13, or a bit of a packet that was rejected, makes later readers run past the
+   allocation.  One X/28 packet with designation ADES28 (grid) on a Level One page in progress; triplet 1 (page function / coding) from AX28FN. */
+#ifdef H_X28
+#ifndef ADES28
+#define ADES28 2
+#endif
+V_HARNESS(h_asm_x28)
+{
+  struct raw_page *r1; uint8_t pk[42]; unsigned subP, flP, x0, d18; vbi_bool r; const int pgP = AM1 * 256 + AP1; int t0;
+  V_INIT();
+  in_bytes(pk + 3, 39); subP = in_u16() & 0x3F7F; x0 = in_u8() & 0x13; d18 = in_u32() & 0x3FFFF;
+  flP = (unsigned) (AFLX) | (ASER ? C11_MAGAZINE_SERIAL : 0) | (AERA1 ? C4_ERASE_PAGE : 0) | (AROLL ? 0 : C7_SUPPRESS_HEADER);
+  mk_addr(pk, AM1, 28); pk[2] = (uint8_t) ref_ham8(ADES28);
+#ifdef AX28FN     /* first triplet clean, page function AX28FN (0 = LOP ... ), the other 14 bits symbolic */
+  d18 = (d18 & ~15u) | ((unsigned) (AX28FN) & 15u);
+  { unsigned w = ref_ham24(d18); pk[3] = (uint8_t) w; pk[4] = (uint8_t) (w >> 8); pk[5] = (uint8_t) (w >> 16); }
+#endif
+  asm_state_init(); r1 = RPG(AM1);
+  open_lop(r1, pgP, subP, flP); VBI.vt.current = r1;
+  r1->page->x28_designations = x0;
+  t0 = ref_unham24(pk + 3);
+  r = vbi_decode_teletext(&VBI, pk);
+  V_ASSERT((r1->page->x28_designations & ~0x13u) == 0, "x28_designations_only_0_1_4");
+  V_ASSERT((r1->page->x28_designations & ~(x0 | (1u << ADES28))) == 0 && (r1->page->x28_designations & x0) == x0, "x28_designations_only_gains_this_packets_bit");
+#if ADES28 == 0 || ADES28 == 4
+  /* taken iff all 13 triplets are correctable and the page function it announces is LOP */
+  if (t0 >= 0 && (t0 & 15) != PAGE_FUNCTION_LOP) { V_ASSERT(r1->page->x28_designations == x0, "x28_rejected_packet_not_recorded"); V_REACH("rejected"); }
+  if (r1->page->x28_designations != x0) V_ASSERT(LOPX(r1->page).designations & (1u << ADES28), "x28_recorded_only_with_its_extension_taken");
+#elif ADES28 == 1
+  V_ASSERT(r1->page->x28_designations == (x0 | 2u) && (LOPX(r1->page).designations & 2u), "x28_1_taken_and_recorded");
+#else
+  V_ASSERT(r1->page->x28_designations == x0, "x28_designation_without_extension_not_recorded");
+#endif
+  V_ASSERT(put_n == 0 && ev_n == 0, "x28_stores_no_page");
+  (void) r; (void) t0;
+  V_END();
+}
+#endif
+
+/* =============== (e) C02 "same-header test must not mistake a consistent network for a channel change" =============== */
+/* A network with a CONSISTENT header: every page carries the same 24 characters of header text (bytes 8..31 of row 0) except the three page number
+   digits at a fixed place AKPOS, followed by an 8-character clock.  The decoder has seen page AP0 of magazine AM1 before (vt.header_page / vt.header);
+   page P of the same magazine arrives with a rolling header (no C5, C6, C7, C9, C10) and is terminated by the next header of its magazine.  store_lop's
+   heuristic must not signal a channel switch (which flushes the cache and swallows the page).  Text: a concrete template with AKWIN symbolic characters
+   (odd parity, any 7-bit code) in front of the page number - fully symbolic text makes same_header's pointers symbolic in every iteration. */
+#ifdef H_ROLL
+#ifndef AP0
+#define AP0 0x00
+#endif
+#ifndef AKPOS
+#define AKPOS 24        /* index in row 0 (8..28) of the hundreds digit */
+#endif
+#ifndef AKWIN
+#define AKWIN 4         /* symbolic characters at AKPOS-AKWIN-1 .. AKPOS-2 */
+#endif
+static void mk_text(uint8_t *row0, const uint8_t *win, const uint8_t *clock, int pgno)
+{
+  static const char tmpl[] = "ZVBITEXT MO 30 SEP          ";     /* 24 characters for bytes 8..31 */
+  unsigned i;
+  for (i = 0; i < 24; i++) row0[8 + i] = (uint8_t) ref_par8((unsigned char) tmpl[i]);
+  for (i = 0; i < AKWIN; i++) row0[AKPOS - AKWIN - 1 + i] = win[i];
+  row0[AKPOS] = (uint8_t) ref_par8('0' + ((pgno >> 8) & 15)); row0[AKPOS + 1] = (uint8_t) ref_par8('0' + ((pgno >> 4) & 15)); row0[AKPOS + 2] = (uint8_t) ref_par8('0' + (pgno & 15));
+  for (i = 0; i < 8; i++) row0[32 + i] = clock[i];
+}
+V_HARNESS(h_asm_roll_header)
+{
+  struct raw_page *r1; uint8_t h2[42], win[AKWIN], clk0[8], clk1[8]; unsigned subP, flP, i; const int pgP = AM1 * 256 + AP1, pg0 = AM1 * 256 + AP0;
+  V_INIT();
+  in_bytes(h2 + 10, 32); in_bytes(win, AKWIN); in_bytes(clk0, 8); in_bytes(clk1, 8); subP = in_u16() & 0x3F7F;
+  for (i = 0; i < AKWIN; i++) V_ASSUME(ref_odd_parity(win[i]));
+  for (i = 0; i < 8; i++) V_ASSUME(ref_odd_parity(clk0[i]) && ref_odd_parity(clk1[i]));
+  flP = (unsigned) (AFLX) | (ASER ? C11_MAGAZINE_SERIAL : 0) | C4_ERASE_PAGE;
+  mk_header(h2, AM1, AP2, ((unsigned) (ASUB2) & 0x3F7Fu) | SUB_C4, (unsigned) (ACTLX) | (ASER ? CTL_C11 : 0));
+  asm_state_init(); r1 = RPG(AM1);
+  open_lop(r1, pgP, subP, flP); VBI.vt.current = r1;
+  mk_text(LOPD(r1->page).raw[0], win, clk1, pgP);
+  VBI.vt.header_page.pgno = pg0; mk_text(VBI.vt.header, win, clk0, pg0);
+  get_result = NULL;
+  (void) vbi_decode_teletext(&VBI, h2);
+#ifndef KNOWN_same_header_first_match
+  V_ASSERT(chsw_n == 0, "consistent_header_not_taken_for_a_channel_switch");
+  V_ASSERT(n_puts(pgP) == 1 && put_n == 1 && n_evs(pgP) == 1, "terminated_page_stored_exactly_once");
+#else
+  /* known finding: characters in front of the page number that happen to spell it are taken for the page number */
+  V_ASSERT(put_n <= 1 && ev_n == put_n, "terminated_page_stored_at_most_once");
+#endif
+  V_ASSERT(PS_OTHER_ACCESSES == 0, "cut_page_statistics_only_of_the_pages_involved");
   V_END();
 }
 #endif
